@@ -18,7 +18,7 @@ pub fn cases(quick: bool) -> Vec<Case> {
     let est = TVFS_FLAG_ENCODING_SPEC;
     let pat = TVFS_FLAG_PATCH_SUPPORT;
     let flag_sets = [ck, 0, ck | est, ck | pat, ck | est | pat, est];
-    let reps = if quick { 8 } else { 120 };
+    let reps = if quick { 30 } else { 120 };
     for _ in 0..reps {
         for shape in ["single", "flat", "deep", "shared", "mixed"] {
             for (fi, &flags) in flag_sets.iter().enumerate() {
